@@ -196,7 +196,15 @@ def _overflow(ctx) -> None:
                f"{what} can raise OverflowError; " + ("a handler for it lies on every call chain from pendulum.parse" if ok else
                                                      f"no handler on the chain(s) {bad[:2]}: it escapes parse() as OverflowError"),
                pmod(home[0]).loc(call))
-    ctx.ob("UNBOUNDED-INT.sources", "parse-path", len(sources) >= 4, f"{len(sources)} OverflowError sources identified on the parse path", "src/pendulum/parser.py")
+    if len(sources) >= 4:
+        ctx.ob("UNBOUNDED-INT.sources", "parse-path", True, f"{len(sources)} OverflowError sources identified on the parse path", "src/pendulum/parser.py")
+    else:
+        from .. import sem
+        if sem.reference_available() and sem.changed_files():
+            # the sites are written another way on this tree: the inventory is incomplete, which is no finding about the code
+            ctx.unverified("UNBOUNDED-INT.sources", "parse-path", f"only {len(sources)} of the OverflowError sources known on the reference tree were recognised", "src/pendulum/parser.py")
+        else:
+            ctx.ob("UNBOUNDED-INT.sources", "parse-path", False, f"{len(sources)} OverflowError sources identified on the parse path", "src/pendulum/parser.py")
     # the handler converts to ParserError
     fn = pm.func("parse")
     hs = [h for n in core.walk_fn(fn) if isinstance(n, ast.Try) for h in n.handlers]
@@ -220,6 +228,7 @@ def _interval_types_tabulate(ctx, m, fn, accepts: bool = False) -> bool:
         return minieval.ClassStub(_new=lambda *a, **k: (_ for _ in ()).throw(core.Unsupported(f"{name}() constructed")),
                                   _isa=lambda v, n=name: isinstance(v, minieval.Stub) and n in KINDS.get(getattr(v, "_kind", ""), ()))
     funcs = {st.name: st for st in m.top() if isinstance(st, ast.FunctionDef)}
+    imeths = {k: f for k, f in (m.methods("_Interval") if m.has_cls("_Interval") else {}).items() if k not in ("__init__", "__new__")}
     texts = {"datetime": "2000-01-01T10:00:00", "date": "2000-01-01", "time": "10:00:00", "Duration": "P1D"}
     bad: dict[str, str] = {}
     accepted = set()
@@ -233,7 +242,10 @@ def _interval_types_tabulate(ctx, m, fn, accepts: bool = False) -> bool:
 
                 def mk(*a, **k):
                     built.append((a, k))
-                    return minieval.Stub(_interval=True)
+                    f_ = dict(zip(("start", "end", "duration"), a))
+                    f_.update(k)
+                    # the record class of the analysed module: its own methods (a validation step, ...) are interpreted on the instance
+                    return minieval.Obj(_methods=imeths, _props=set(), _natives={}, _ctor=None, _interval=True, **{x: f_.get(x) for x in ("start", "end", "duration")})
                 glob = {"parse_iso8601": minieval.ClassStub(_new=lambda t, *a, **k: vals[t], _isa=lambda v: False),
                         "_Interval": minieval.ClassStub(_new=mk, _isa=lambda v: False), "ParserError": ValueError, "ValueError": ValueError,
                         **{c: klass(c) for c in ("datetime", "date", "time", "Duration", "timedelta")}}
@@ -262,8 +274,11 @@ def _interval_types_tabulate(ctx, m, fn, accepts: bool = False) -> bool:
                         bad.setdefault(role, f"for a {k1} / {k2} pair a {kind} reaches _Interval as the {role}" +
                                        (" next to a duration (which has to be added to it)" if d is not None else "") +
                                        ": AttributeError/TypeError later instead of ParserError")
-    except (core.Unsupported, KeyError, TypeError, AttributeError, ValueError, IndexError, RecursionError):
+    except (core.Unsupported, KeyError, TypeError, AttributeError, ValueError, IndexError, RecursionError) as e:
+        ctx.unverified("CAST-UNION.tabulated", "_parse_iso8601_interval", f"outside the checker's interpreter: {type(e).__name__}: {str(e)[:160]}", m.loc(fn))
         return False
+    if not bad:
+        ctx.established(("CAST-UNION",), "_parse_iso8601_interval", "CAST-UNION.tabulated")
     for want in (("datetime", "datetime"), ("Duration", "datetime"), ("datetime", "Duration"), ("date", "date")):
         if want not in accepted:
             bad.setdefault("accepts", f"a well-formed {want[0]} / {want[1]} interval is refused")
